@@ -15,6 +15,11 @@ PROPS = {
         rule="cases drawn by rapid generators. Classifier cases: a CIDR (every prefix 0..32/0..128, byte/word boundaries and neighbours over-represented, "
              "IPNet with/without host bits, IPv4 in 4- and 16-byte form) plus 1..4 probe addresses (inside; inside with one bit flipped at prefix boundary -2..+2; arbitrary) "
              "in a header whose other address field holds an unrelated/inside/complement address; non-trivial = prefix length not a multiple of 8 (IPv4) / 32 (IPv6) or a one-bit-flip probe. "
+             "Reuse/lookup cases (which installed filter ends up classifying a CIDR): IPv4 CIDR pairs (wanted B, installed A = same CIDR written differently / same base with another prefix length / "
+             "nested inside B / one network bit flipped / independent): ipvlan redirectRule.isMatch may accept A's real toU32Filter() for B only if A's keys pass B's packet-level oracle (B's probes plus the first/last "
+             "addresses of A and B and their neighbours across B's boundary), and must accept B's own filter; pod-address lookups (1..4 installed /32 or /128 source filters built by MatchSrc, addresses equal / one bit apart / "
+             "sharing 1..3 leading 32-bit words / differing only in the last word / arbitrary; the search loop of EnsureVlanTag and FilterBySrcIP over a slice with the real tc.Contain): the filter returned for B must match exactly packets "
+             "from B (probes: B, every installed address, first and last bit of every word flipped), and B's own filter must be found; non-trivial = related pair / an installed address equal to or sharing a leading word with B. "
              "Gateway cases: non-trivial = prefix not byte aligned, subnet with <= 2 host bits, or network with a leading zero byte. "
              "Table-id cases: 1..8 link indexes incl. neighbours and values equal modulo 2^8/2^16/1000; non-trivial = >= 2 distinct indexes. "
              "Per-interface-table cases: a pod of 1..4 interfaces with distinct link indexes (steps 1/2/256/1000/65536), each with a datapath (ipvlan, exclusive ENI, veth+policy route, vlan), "
@@ -30,7 +35,7 @@ PROPS = {
             "interface-name prefixes are at most 4 bytes (every caller passes \"cali\")",
         ],
         level_text="generated addresses/prefixes/indexes/names checked against independent bit-level and big-integer reference models, and generated pod interface sets run through the datapath config generators to check the table number each interface actually gets; exploration, not proof",
-        level_note="trusts Go's net and math/big as the reference; u32 semantics modelled (value/mask at byte offset into the IP header), not executed in the kernel; "
+        level_note="trusts Go's net and math/big as the reference; u32 semantics modelled (value/mask at byte offset into the IP header), not executed in the kernel; tc.FilterBySrcIP and the netlink list/add/delete steps of setupFilters / EnsureVlanTag / SetFilter / DelFilter need cls_u32 and are not run: their key comparison is exercised through tc.Contain and redirectRule.isMatch on filters kept in a slice, for single-family filter sets and the /32 and /128 host networks the callers pass; "
                    "the model demands keys in canonical form (Val has no bit outside Mask), which is what cls_u32's ((word^Val)&Mask)==0 reduces to for such keys; "
                    "name distinctness is checked per pod over sampled interface names (the name keeps 44 bits of a hash, so distinctness is probabilistic by design); "
                    "determinism is checked inside one process only",
@@ -38,6 +43,8 @@ PROPS = {
             dict(unit="ip", test="TestVerifC14Gateway", quick=40000, thorough=4000000),
             dict(unit="c14tc", test="TestVerifC14U32Src", quick=80000, thorough=4000000),
             dict(unit="c14datapath", test="TestVerifC14DstIPRule", quick=40000, thorough=2000000),
+            dict(unit="c14tc", test="TestVerifC14SrcFilterLookup", quick=24000, thorough=1500000),
+            dict(unit="c14datapath", test="TestVerifC14DstRuleReuse", quick=24000, thorough=1500000),
             dict(unit="c14drvutils", test="TestVerifC14RouteTableID", quick=8000, thorough=400000),
             dict(unit="c14datapath", test="TestVerifC14IfaceTables", quick=16000, thorough=800000),
             dict(unit="c14link", test="TestVerifC14VethName", quick=24000, thorough=1000000),
